@@ -2,6 +2,7 @@ package sim
 
 import (
 	"fmt"
+	"net"
 	"time"
 
 	"hop.computer/hop/transport"
@@ -83,6 +84,8 @@ func scTamper(r *Run) {
 	case 2:
 		if pos < 4 {
 			kind = 2
+		} else if m.typ == 0x02 && pos < 12 {
+			kind = 5 // the ServerHello of a handshake that somebody else ran with a COPY of the victim's ClientHello
 		} else {
 			mask = seeded()
 		}
@@ -94,7 +97,7 @@ func scTamper(r *Run) {
 			mask = 1 << (uint(pos) % 8)
 		}
 	}
-	kindName := []string{"xor", "truncate", "replace", "xor2", "truncate-primed"}[kind]
+	kindName := []string{"xor", "truncate", "replace", "xor2", "truncate-primed", "cookie-swap"}[kind]
 	r.SetCfg("alter", fmt.Sprintf("%s %s pos=%d mask=%02x sweep=%d", kindName, m.name, pos, mask, sweep))
 
 	n := NewNet(r)
@@ -106,6 +109,24 @@ func scTamper(r *Run) {
 
 	victimAddr := Addr(10, 4000)
 	otherAddr := Addr(11, 4001)
+	// cookie swap: where the victim and the party that copies its ClientHello sit (the cookie in a ServerHello is
+	// bound to the address it was issued to, whatever the address family)
+	var copyAddr *net.UDPAddr
+	if kind == 5 {
+		v6 := func(host string, port int) *net.UDPAddr { return &net.UDPAddr{IP: net.ParseIP(host), Port: port} }
+		switch (pos - 4) % 4 {
+		case 0: // IPv4, other host, same port
+			copyAddr = Addr(12, 4000)
+		case 1: // IPv6, other host, same port
+			victimAddr, copyAddr = v6("2001:db8::a", 4000), v6("2001:db8::b", 4000)
+		case 2: // IPv6, same host, other port
+			victimAddr, copyAddr = v6("2001:db8::a", 4000), v6("2001:db8::a", 4001)
+		default: // IPv6 victim, IPv4 copier, same port
+			victimAddr, copyAddr = v6("2001:db8::a", 4000), Addr(12, 4000)
+		}
+	}
+	var heldSH *Dgram
+	var copySH []byte
 	var all []sessKeys
 
 	// complete reports the keys of a handshake both sides completed.
@@ -190,6 +211,38 @@ func scTamper(r *Run) {
 			return true
 		}
 		if victimSeen == nil {
+			return true
+		}
+		if kind == 5 {
+			switch {
+			case t == 0x01 && d.Src.String() == victimAddr.String() && victimSeen[0x01] == 0:
+				// the copy of the victim's ClientHello, sent from the other address right behind the original
+				victimSeen[0x01]++
+				n.Inject(copyAddr, d.Dst, append([]byte(nil), d.Data...), time.Microsecond, "copy of the victim's ClientHello from another address")
+				return true
+			case t == 0x02 && d.Dst.String() == victimAddr.String() && heldSH == nil && applied == "":
+				if !r.Fault("cookie-swap", m.name, 1) {
+					return true
+				}
+				heldSH = d.clone() // held back until the answer to the copy is there
+				if copySH == nil {
+					return false
+				}
+				fallthrough
+			case t == 0x02 && d.Dst.String() == copyAddr.String() && applied == "":
+				if d.Dst.String() == copyAddr.String() {
+					copySH = append([]byte(nil), d.Data...)
+				}
+				if heldSH == nil {
+					return false // (nobody listens at the copier's address)
+				}
+				c := heldSH
+				c.Data = append([]byte(nil), copySH...)
+				c.Mut = "replaced by the ServerHello issued to " + copyAddr.String()
+				applied = fmt.Sprintf("ServerHello for %s replaced by the ServerHello that the server issued to %s in answer to a copy of the same ClientHello", victimAddr, copyAddr)
+				deliver(c, n.Cfg.Latency)
+				return false
+			}
 			return true
 		}
 		isVictim := d.Src.String() == victimAddr.String() || d.Dst.String() == victimAddr.String()
